@@ -164,8 +164,9 @@ hs_check("C06",
     technique="deterministic simulation of interleaved IX sessions (all curve/cipher/version mixes, tape-chosen index allocators incl. equal and extreme values); agreement of keys, indexes and message count checked for every session completed at both ends",
     level_text="Seeded search over session interleavings: when both ends of one session complete, each side's sending key must decrypt only with the other side's receiving key (not with its own, not with any machine of another session), remote index = peer's local index in both directions, equal message count, non-zero local indexes. Evidence, not proof.")
 hs_check("C07",
+    pkg={"C07.hs": "handshake", "C07.mesh": "nebula"}, scenarios=["C07.hs", "C07.mesh"],
     technique="deterministic simulation: before the genuine reply an initiator machine receives 0..n attacker variants (every truncation class, bit flips, low-order/invalid/foreign ephemerals, cross-session bodies, wrong subtype, garbage); if it still reports itself usable the genuine reply must complete it",
-    level_text="Seeded search over rejected-then-genuine histories: whenever the genuine reply of an acceptable responder is refused by a machine that never reported Failed(), that is a wedge; once Failed() is true every later input must return ErrMachineFailed and no result. Evidence, not proof.")
+    level_text="Seeded search over rejected-then-genuine histories: whenever the genuine reply of an acceptable responder is refused by a machine that never reported Failed(), that is a wedge; once Failed() is true every later input must return ErrMachineFailed and no result. C07.mesh (engine A nodes, hand-delivered): the same history one level up, through the real HandshakeManager of a fault-free pair — an on-path attacker delivers 0-9 rejected variants of the responder's reply (truncations, flips in ephemeral/payload/tag, zero ephemeral, older-session reply, garbage, wrong subtype) with retransmissions and clock steps in between; while the attempt's machine reports itself usable the genuine reply must complete the handshake (tunnel with the responder's index) and the packet queued behind it must reach the peer's tun exactly once. Evidence, not proof.")
 hs_check("C02",
     technique="deterministic simulation with an on-path attacker rewriting the certificate bytes that travel in the clear in the first handshake message (structure-aware and blind mutations, P-256 low/high-S twin, foreign certificate, version field), with blocklists naming either twin fingerprint",
     level_text="Seeded search over tampered first messages: a responder that completes must have accepted a certificate whose decoded identity (name, networks, unsafe networks, groups, CA flag, validity, issuer, curve, public key) equals the issued one; the only other signature accepted for unchanged content is the P-256 twin; identities blocklisted directly or through their twin fingerprint never complete in either signature form. The PEM encoding does not cross the simulated network and is outside this check. Evidence, not proof.")
